@@ -26,12 +26,15 @@ class Check:
         self.assumptions = []
         self.explanation = ""
         self.info = {}
+        self.config = "default"
 
     # -- recording ----------------------------------------------------------------------
     def rule(self, rid, text):
         self.rules[rid] = text
 
     def ok(self, rule, key, detail=None, nontrivial=True, function=None):
+        if self.config != "default":
+            key = "[%s] %s" % (self.config, key)
         self.obligations.append({"rule": rule, "key": key, "ok": True, "nontrivial": nontrivial,
                                  "function": function, "detail": detail})
 
